@@ -30,7 +30,7 @@ theorem subworkflowCache_root (env : Env P I D) (fuel : Nat) (wf : Wf) (rootDir 
           · cases h
           · rename_i m hm
             cases h
-            have := mergeFrom_append_root cs stepCache _ _ hm
+            have := mergeFrom_append_root env.abs cs stepCache _ _ hm
             rw [this]
             exact (loadCache_spec env rootDir wf.refs stepCache hload).1
 
@@ -39,6 +39,27 @@ theorem subworkflowCache_no_refs (env : Env P I D) (fuel : Nat) (wf : Wf) (rootD
     (caches : List (Option FileCache)) (parents : List String) (h : wf.refs = []) :
     subworkflowCache env (fuel + 1) wf rootDir caches parents = .ok none := by
   simp [subworkflowCache, h]
+
+/-- two folds agree when their step functions agree on the accumulators an invariant describes -/
+theorem foldl_congr_inv {α β : Type} (F G : β → α → β) (Inv : β → Prop)
+    (hFG : ∀ b a, Inv b → F b a = G b a) (hInv : ∀ b a, Inv b → Inv (G b a)) :
+    ∀ (l : List α) (b : β), Inv b → l.foldl F b = l.foldl G b ∧ Inv (l.foldl G b) := by
+  intro l
+  induction l with
+  | nil => intro b hb; exact ⟨rfl, hb⟩
+  | cons x r ih =>
+    intro b hb
+    simp only [List.foldl_cons]
+    rw [hFG b x hb]
+    exact ih (G b x) (hInv b x hb)
+
+/-- every cache of the list carries the root directory string `a` -/
+def AllRoot (a : String) (cs : List (Option FileCache)) : Prop := ∀ c, some c ∈ cs → c.rootDir = a
+
+/-- invariant of the visit loop -/
+def VisitInv (a : String) : Except Err (List (Option FileCache)) → Prop
+  | .ok cs => AllRoot a cs
+  | .error _ => True
 
 /-- the same environment with another `filepath.Abs` (another working directory) -/
 def withAbs (env : Env P I D) (f : String → String) : Env P I D :=
@@ -51,17 +72,99 @@ theorem loadCache_withAbs (env : Env P I D) (f g : String → String) (rootDir :
   simp only []
   rw [h]
 
-/-- sub-workflow discovery consults `filepath.Abs` for the root directory only -/
+/-- sub-workflow discovery consults `filepath.Abs` for the root directory only (all the caches it merges carry the
+    same root directory string, for which `sameDirectory` needs no `filepath.Abs`) -/
 theorem subworkflowCache_withAbs (env : Env P I D) (f g : String → String) (rootDir : String) (h : f rootDir = g rootDir)
     (fuel : Nat) : ∀ (wf : Wf) (caches : List (Option FileCache)) (parents : List String),
+    AllRoot (g rootDir) caches →
     subworkflowCache (withAbs env f) fuel wf rootDir caches parents =
       subworkflowCache (withAbs env g) fuel wf rootDir caches parents := by
+  induction fuel with
+  | zero => intro wf caches parents _; rfl
+  | succ n ih =>
+    intro wf caches parents hall
+    simp only [subworkflowCache, loadCache_withAbs env f g rootDir wf.refs h]
+    split
+    · rfl
+    · split
+      · rfl
+      · rename_i stepCache hload
+        have hsc : stepCache.rootDir = g rootDir := (loadCache_spec (withAbs env g) rootDir wf.refs stepCache hload).1
+        have key := foldl_congr_inv
+          (visitStep (withAbs env f) (fun w c p => subworkflowCache (withAbs env f) n w rootDir c p) parents)
+          (visitStep (withAbs env g) (fun w c p => subworkflowCache (withAbs env g) n w rootDir c p) parents)
+          (VisitInv (g rootDir))
+          (by
+            intro b kv hb
+            cases b with
+            | error e => rfl
+            | ok cs =>
+              simp only [visitStep]
+              rw [show (withAbs env f).fromYAML = (withAbs env g).fromYAML from rfl]
+              split
+              · rfl
+              · split
+                · rfl
+                · rw [ih _ cs _ hb])
+          (by
+            intro b kv hb
+            cases b with
+            | error e => exact trivial
+            | ok cs =>
+              simp only [visitStep]
+              split
+              · exact trivial
+              · split
+                · exact trivial
+                · rename_i subwf _
+                  cases hr : subworkflowCache (withAbs env g) n subwf rootDir cs (parents ++ [kv.2.absPath]) with
+                  | error e => exact trivial
+                  | ok fc =>
+                    intro c hc
+                    rcases List.mem_append.mp hc with hc | hc
+                    · exact hb c hc
+                    · simp only [List.mem_singleton] at hc
+                      subst hc
+                      exact subworkflowCache_root (withAbs env g) n subwf rootDir cs _ c hr)
+          stepCache.files (.ok caches) hall
+        rw [key.1]
+        cases hv : List.foldl (visitStep (withAbs env g) (fun w c p => subworkflowCache (withAbs env g) n w rootDir c p) parents)
+            (.ok caches) stepCache.files with
+        | error e => rfl
+        | ok cs' =>
+          have hinv : AllRoot (g rootDir) cs' := by
+            have := key.2
+            rw [hv] at this
+            exact this
+          have hm : mergeFileCaches (withAbs env f).abs (cs' ++ [some stepCache]) =
+              mergeFileCaches (withAbs env g).abs (cs' ++ [some stepCache]) :=
+            mergeFrom_allRoot_indep _ _ (g rootDir) _ _ (Or.inl rfl) (by
+              intro c hc
+              rcases List.mem_append.mp hc with hc | hc
+              · exact hinv c hc
+              · simp only [List.mem_singleton, Option.some.injEq] at hc
+                subst hc
+                exact hsc)
+          simp only [hm]
+
+/-- sub-workflow discovery depends on the root directory through its `filepath.Abs` only -/
+theorem loadCache_root_congr (env : Env P I D) (r₁ r₂ : String) (paths : List String) (h : env.abs r₁ = env.abs r₂) :
+    loadCache env r₁ paths = loadCache env r₂ paths := by
+  unfold loadCache
+  simp only []
+  rw [h]
+
+theorem subworkflowCache_root_congr (env : Env P I D) (r₁ r₂ : String) (h : env.abs r₁ = env.abs r₂) (fuel : Nat) :
+    ∀ (wf : Wf) (caches : List (Option FileCache)) (parents : List String),
+    subworkflowCache env fuel wf r₁ caches parents = subworkflowCache env fuel wf r₂ caches parents := by
   induction fuel with
   | zero => intro wf caches parents; rfl
   | succ n ih =>
     intro wf caches parents
-    simp only [subworkflowCache, loadCache_withAbs env f g rootDir wf.refs h, ih]
-    rfl
+    simp only [subworkflowCache, loadCache_root_congr env r₁ r₂ wf.refs h, ih]
+
+/-- `filepath.Abs` of an absolute path is that path (cleaned): a property of the real function, a hypothesis here -/
+def AbsIdempotent (env : Env P I D) : Prop := ∀ s, env.abs (env.abs s) = env.abs s
 
 /-- a run without error: input decoded, `Execute` returned a declared output, the flag is `classify` -/
 theorem run_ok (env : Env P I D) (wf : Wf) (p : P) (input : String) (h : (run env wf p input).err = none) :
